@@ -268,7 +268,13 @@ hwloc_synthetic_process_indexes(struct hwloc_synthetic_backend_data_s *data,
 	nbs *= nb;
       }
     }
-    assert(nbs);
+    if (!nbs) {
+      /* the product of the loop sizes wrapped around */
+      if (verbose)
+	fprintf(stderr, "Invalid index interleaving total width overflow in synthetic index '%s'\n", attr);
+      free(loops);
+      goto out_with_array;
+    }
 
     if (nbs != total) {
       /* one loop of total/nbs steps is missing, add it if it's just the smallest one */
